@@ -172,7 +172,7 @@ func bigValues() []value {
 		}
 	}
 	// structs with ids around the by-id threshold
-	for _, ids := range [][]int16{{254, 255, 256}, {256, 257, 258}, {257, 256, 255}, {1, 255, 300}, {300, 2, 256, 1}} {
+	for _, ids := range [][]int16{{254, 255, 256}, {256, 257, 258}, {257, 256, 255}, {1, 255, 300}, {300, 2, 256, 1}, {1, 2, 3}, {1, 2, 3, 4, 5, 6, 8, 9, 10, 11}} {
 		var fs []tbin.SField
 		for i, id := range ids {
 			t := []*tbin.Shape{tbin.Sc(tbin.I32), tbin.Sc(tbin.STRING), tbin.ListS(tbin.Sc(tbin.I16)), tbin.Sc(tbin.DOUBLE)}[i%4]
@@ -331,6 +331,10 @@ type ctx struct {
 	cfg  config
 	what string
 	trig string
+	// editPrev: the largest reuse partner; every edit history is replayed a second time on a tree that
+	// was loaded with it first (non-initial start state: stale slots beyond the loaded range)
+	editPrev      *value
+	editPrevBytes []byte
 }
 
 func (c *ctx) viol(site, outcome, format string, a ...interface{}) {
@@ -701,6 +705,9 @@ func run(val value, cfg config, maxDepth int, all []value) core.Result {
 		prev.materialize()
 		c.loadMarshal(val, input, &prev, "reuse")
 		transitions += 3
+		if pb := tbin.Bytes(tbin.Clone(prev.v)); len(pb) > len(c.editPrevBytes) {
+			c.editPrev, c.editPrevBytes = &prev, pb
+		}
 	}
 
 	// 3. edit histories
@@ -722,7 +729,13 @@ func run(val value, cfg config, maxDepth int, all []value) core.Result {
 				}
 				transitions++
 				ops := append(append([]op{}, h.ops...), o)
-				ok := c.replay(val, input, ops, nm)
+				ok := c.replay(val, input, ops, nm, false)
+				if c.editPrev != nil {
+					transitions++
+					if !c.replay(val, input, ops, nm, true) {
+						ok = false
+					}
+				}
 				k := nm.String()
 				if o.Kind == "clear" && o.PE.K == 'i' {
 					continue // an emptied list slot keeps its position in the tree: no index-addressed successors
@@ -756,6 +769,15 @@ func reusePartners(val value, all []value) []value {
 		}
 		if o.s.String() == val.s.String() {
 			out = append(out, o)
+		}
+	}
+	// struct roots: always the dense ten-field struct (ids 1..11 without 7), so that a smaller struct loaded
+	// after it has stale by-id slots right behind its own range
+	if val.s.T == tbin.STRUCT && !val.big {
+		for _, o := range all {
+			if strings.HasPrefix(o.name, "struct-ids[1 2 3 4") && o.name != val.name {
+				out = append(out, o)
+			}
 		}
 	}
 	cnt := 0
@@ -982,7 +1004,7 @@ func (c *ctx) loadMarshal(val value, input []byte, prev *value, site string) {
 }
 
 // replay builds a fresh tree, applies the history and checks marshal + lookups against the model.
-func (c *ctx) replay(val value, input []byte, ops []op, want *tbin.Val) bool {
+func (c *ctx) replay(val value, input []byte, ops []op, want *tbin.Val, reused bool) bool {
 	last := ops[len(ops)-1]
 	save := c.trig
 	c.trig = last.Trig + "," + c.cfg.class()
@@ -993,11 +1015,27 @@ func (c *ctx) replay(val value, input []byte, ops []op, want *tbin.Val) bool {
 	}
 	whatSave := c.what
 	c.what = fmt.Sprintf("%s after %v", whatSave, hs)
+	pre := ""
+	if reused {
+		pre = "Reused."
+		c.what = fmt.Sprintf("%s on a tree that had loaded %s before, after %v", whatSave, c.editPrev.name, hs)
+	}
 	defer func() { c.what = whatSave }()
 	ok := true
 	nviol := len(c.r.Viol)
 	pi := core.Catch(func() {
-		tree, err := load(val.v.T, append([]byte{}, input...), c.cfg)
+		var tree *generic.PathNode
+		var err error
+		if reused {
+			tree = &generic.PathNode{Node: generic.NewNode(thrift.Type(c.editPrev.v.T), append([]byte{}, c.editPrevBytes...))}
+			if tree.Load(c.cfg.recurse, c.cfg.opts()) != nil {
+				return // the partner's own load is judged in its own case
+			}
+			tree.Node = generic.NewNode(thrift.Type(val.v.T), append([]byte{}, input...))
+			err = tree.Load(c.cfg.recurse, c.cfg.opts())
+		} else {
+			tree, err = load(val.v.T, append([]byte{}, input...), c.cfg)
+		}
 		if err != nil {
 			ok = false
 			return
@@ -1006,17 +1044,17 @@ func (c *ctx) replay(val value, input []byte, ops []op, want *tbin.Val) bool {
 		for i, o := range ops {
 			nm := applyModel(m, o)
 			exist, err, missing := applyImpl(tree, o, c.cfg, nil)
-			site := "Set"
+			site := pre + "Set"
 			switch o.PE.K {
 			case 'f':
-				site = "SetField"
+				site = pre + "SetField"
 			case 's':
-				site = "SetByStr"
+				site = pre + "SetByStr"
 			case 'k':
-				site = "SetByInt"
+				site = pre + "SetByInt"
 			}
 			if o.Kind == "clear" || o.Kind == "listset" {
-				site = "Assign"
+				site = pre + "Assign"
 			}
 			if i == len(ops)-1 {
 				if missing {
@@ -1036,11 +1074,11 @@ func (c *ctx) replay(val value, input []byte, ops []op, want *tbin.Val) bool {
 			}
 			m = nm
 		}
-		c.checkMarshal("Edit", tree, want, input, false)
-		c.checkLookupsEdited(tree, want, val.s)
+		c.checkMarshal(pre+"Edit", tree, want, input, false)
+		c.checkLookupsEdited(pre, tree, want, val.s)
 	})
 	if pi != nil {
-		c.viol("Edit", "panic@"+pi.Site+":"+core.PanicClass(pi.Val), "panic %s\n%s", pi.Val, pi.Stack)
+		c.viol(pre+"Edit", "panic@"+pi.Site+":"+core.PanicClass(pi.Val), "panic %s\n%s", pi.Val, pi.Stack)
 		ok = false
 	}
 	if len(c.r.Viol) > nviol {
@@ -1050,7 +1088,7 @@ func (c *ctx) replay(val value, input []byte, ops []op, want *tbin.Val) bool {
 }
 
 // checkLookupsEdited: after edits, keyed lookups on the root return the child last stored (by value).
-func (c *ctx) checkLookupsEdited(tree *generic.PathNode, m *tbin.Val, s *tbin.Shape) {
+func (c *ctx) checkLookupsEdited(pre string, tree *generic.PathNode, m *tbin.Val, s *tbin.Shape) {
 	if isLeaf(m) || m.T == tbin.LIST || m.T == tbin.SET {
 		return
 	}
@@ -1063,7 +1101,7 @@ func (c *ctx) checkLookupsEdited(tree *generic.PathNode, m *tbin.Val, s *tbin.Sh
 		api := map[byte]string{'f': "Field", 's': "GetByStr", 'k': "GetByInt"}[ch.PE.K]
 		got := lookup(tree, ch.PE, opts)
 		if got == nil || got.IsError() || got.IsEmpty() {
-			c.viol("Edit."+api, "present-not-found", "child %s of the edited tree not returned", ch.PE)
+			c.viol(pre+"Edit."+api, "present-not-found", "child %s of the edited tree not returned", ch.PE)
 			continue
 		}
 		if c.cfg.recurse && c.cfg.noscan && !isLeaf(ch.V) {
@@ -1074,7 +1112,7 @@ func (c *ctx) checkLookupsEdited(tree *generic.PathNode, m *tbin.Val, s *tbin.Sh
 				// children that were loaded keep their original bytes; compare by decoded value
 				gv, err := tbin.DecodeAll(raw, ch.V.T)
 				if err != nil || !tutil.EqualUnordered(gv, ch.V) {
-					c.viol("Edit."+api, "wrong-child", "child %s holds %s want %s", ch.PE, hx(raw), hx(buf[ch.V.Off:ch.V.End]))
+					c.viol(pre+"Edit."+api, "wrong-child", "child %s holds %s want %s", ch.PE, hx(raw), hx(buf[ch.V.Off:ch.V.End]))
 				}
 			}
 		}
